@@ -333,42 +333,42 @@ func certView(c *x509.Certificate) M {
 // harness-local copy of the Keymaster structures (the dependency here is encoding/asn1; the struct
 // definition is schema data, re-stated so that the oracle does not call into /repo)
 type hAuthList struct {
-	Purpose                     []int         `asn1:"tag:1,explicit,set,optional"`
-	Algorithm                   int           `asn1:"tag:2,explicit,optional"`
-	KeySize                     int           `asn1:"tag:3,explicit,optional"`
-	Digest                      []int         `asn1:"tag:5,explicit,set,optional"`
-	Padding                     []int         `asn1:"tag:6,explicit,set,optional"`
-	ECCurve                     int           `asn1:"tag:10,explicit,optional"`
-	RSAPublicExponent           int           `asn1:"tag:200,explicit,optional"`
-	RollbackResistance          asn1.Flag     `asn1:"tag:303,explicit,optional"`
-	ActiveDateTime              int           `asn1:"tag:400,explicit,optional"`
-	OriginationExpireDateTime   int           `asn1:"tag:401,explicit,optional"`
-	UsageExpireDateTime         int           `asn1:"tag:402,explicit,optional"`
-	NoAuthRequired              asn1.Flag     `asn1:"tag:503,explicit,optional"`
-	UserAuthType                int           `asn1:"tag:504,explicit,optional"`
-	AuthTimeout                 int           `asn1:"tag:505,explicit,optional"`
-	AllowWhileOnBody            asn1.Flag     `asn1:"tag:506,explicit,optional"`
-	TrustedUserPresenceRequired asn1.Flag     `asn1:"tag:507,explicit,optional"`
-	TrustedConfirmationRequired asn1.Flag     `asn1:"tag:508,explicit,optional"`
-	UnlockedDeviceRequired      asn1.Flag     `asn1:"tag:509,explicit,optional"`
-	AllApplications             asn1.Flag     `asn1:"tag:600,explicit,optional"`
-	ApplicationID               asn1.Flag     `asn1:"tag:601,explicit,optional"`
-	CreationDateTime            int           `asn1:"tag:701,explicit,optional"`
-	Origin                      int           `asn1:"tag:702,explicit,optional"`
-	RootOfTrust                 hRootOfTrust  `asn1:"tag:704,explicit,optional"`
-	OSVersion                   int           `asn1:"tag:705,explicit,optional"`
-	OSPatchLevel                int           `asn1:"tag:706,explicit,optional"`
-	AttestationApplicationID    []byte        `asn1:"tag:709,explicit,optional"`
-	AttestationIDBrand          []byte        `asn1:"tag:710,explicit,optional"`
-	AttestationIDDevice         []byte        `asn1:"tag:711,explicit,optional"`
-	AttestationIDProduct        []byte        `asn1:"tag:712,explicit,optional"`
-	AttestationIDSerial         []byte        `asn1:"tag:713,explicit,optional"`
-	AttestationIDIMEID          []byte        `asn1:"tag:714,explicit,optional"`
-	AttestationIDMEID           []byte        `asn1:"tag:715,explicit,optional"`
-	AttestationIDManufacturer   []byte        `asn1:"tag:716,explicit,optional"`
-	AttestationIDModel          []byte        `asn1:"tag:717,explicit,optional"`
-	VendorPatchLevel            int           `asn1:"tag:718,explicit,optional"`
-	BootPatchLevel              int           `asn1:"tag:719,explicit,optional"`
+	Purpose                     []int        `asn1:"tag:1,explicit,set,optional"`
+	Algorithm                   int          `asn1:"tag:2,explicit,optional"`
+	KeySize                     int          `asn1:"tag:3,explicit,optional"`
+	Digest                      []int        `asn1:"tag:5,explicit,set,optional"`
+	Padding                     []int        `asn1:"tag:6,explicit,set,optional"`
+	ECCurve                     int          `asn1:"tag:10,explicit,optional"`
+	RSAPublicExponent           int          `asn1:"tag:200,explicit,optional"`
+	RollbackResistance          asn1.Flag    `asn1:"tag:303,explicit,optional"`
+	ActiveDateTime              int          `asn1:"tag:400,explicit,optional"`
+	OriginationExpireDateTime   int          `asn1:"tag:401,explicit,optional"`
+	UsageExpireDateTime         int          `asn1:"tag:402,explicit,optional"`
+	NoAuthRequired              asn1.Flag    `asn1:"tag:503,explicit,optional"`
+	UserAuthType                int          `asn1:"tag:504,explicit,optional"`
+	AuthTimeout                 int          `asn1:"tag:505,explicit,optional"`
+	AllowWhileOnBody            asn1.Flag    `asn1:"tag:506,explicit,optional"`
+	TrustedUserPresenceRequired asn1.Flag    `asn1:"tag:507,explicit,optional"`
+	TrustedConfirmationRequired asn1.Flag    `asn1:"tag:508,explicit,optional"`
+	UnlockedDeviceRequired      asn1.Flag    `asn1:"tag:509,explicit,optional"`
+	AllApplications             asn1.Flag    `asn1:"tag:600,explicit,optional"`
+	ApplicationID               asn1.Flag    `asn1:"tag:601,explicit,optional"`
+	CreationDateTime            int          `asn1:"tag:701,explicit,optional"`
+	Origin                      int          `asn1:"tag:702,explicit,optional"`
+	RootOfTrust                 hRootOfTrust `asn1:"tag:704,explicit,optional"`
+	OSVersion                   int          `asn1:"tag:705,explicit,optional"`
+	OSPatchLevel                int          `asn1:"tag:706,explicit,optional"`
+	AttestationApplicationID    []byte       `asn1:"tag:709,explicit,optional"`
+	AttestationIDBrand          []byte       `asn1:"tag:710,explicit,optional"`
+	AttestationIDDevice         []byte       `asn1:"tag:711,explicit,optional"`
+	AttestationIDProduct        []byte       `asn1:"tag:712,explicit,optional"`
+	AttestationIDSerial         []byte       `asn1:"tag:713,explicit,optional"`
+	AttestationIDIMEID          []byte       `asn1:"tag:714,explicit,optional"`
+	AttestationIDMEID           []byte       `asn1:"tag:715,explicit,optional"`
+	AttestationIDManufacturer   []byte       `asn1:"tag:716,explicit,optional"`
+	AttestationIDModel          []byte       `asn1:"tag:717,explicit,optional"`
+	VendorPatchLevel            int          `asn1:"tag:718,explicit,optional"`
+	BootPatchLevel              int          `asn1:"tag:719,explicit,optional"`
 }
 type hRootOfTrust struct {
 	VerifiedBootKey   []byte
